@@ -614,6 +614,11 @@ func equalLines(a, b []string) bool {
 // judgeReplay decides whether the native run reproduces the failure.
 func judgeReplay(f *AssertFail, o replayOut, raw string) (bool, string) {
 	for _, l := range o.Lines {
+		if f.Kind == "assert" && l == "VASSERT-FAIL "+f.ID {
+			// the assertion failed before any assumption did: inputs drawn after that point are not
+			// constrained by the counterexample, later assumptions over them say nothing
+			return true, "assertion fails natively"
+		}
 		if l == "VASSUME-FAIL" {
 			return false, "an assumption does not hold natively"
 		}
